@@ -17,7 +17,15 @@ META = {
         "model no quantity / amount / ratio field goes through a serialize_with (rounding) helper. R6: a field of a front-end structure (MCP explain) "
         "that is named like a report-model field is filled from that field. R7: presentation code lists tax_years / disposals / matches without a "
         "dropping iterator stage. Does not analyse the Typst template's own arithmetic "
-        "(no Typst analyser available) and does not compare rendered outputs. R8: the text and the PDF formatter apply the same predicate to the holdings they list."),
+        "and does not compare rendered outputs. R8: the text and the PDF formatter apply the same predicate to the holdings they list. "
+        "R9 (PDF data): a value packed into the Typst dictionaries under a key that names a field of the structure it is read from is that field. "
+        "R10 (PDF template, read by a parser for the Typst subset it uses — parsed, never evaluated): every numeric figure of the packed data reaches the page "
+        "through the formatter of its kind (money → the £/currency formatter, share counts → the quantity formatter, date dictionaries → the date formatter, "
+        "the start year → the tax-year formatter) or is only compared; none is rendered raw, with str(), or through the wrong formatter; the kinds come from the "
+        "Rust side's inserts and dimensions combine through × ÷ ±. R11 (template formatters, let-bindings substituted): dates are pad2(day)/pad2(month)/year, "
+        "tax years str(start)/pad2((start+1) rem 100), money is rounded with calc.round to 2 digits, written sign (value < 0), £, thousands groups of 3 "
+        "joined by ',', '.', fraction, with the digits taken from |value|; quantities are rounded to 6 digits and only TRAILING zeros are stripped (`at: end`). "
+        "Typst's own calc.round/str semantics are trusted; the float conversion underneath stays known finding R2."),
     "trusted_base": ["rust_decimal: round_dp is MidpointNearestEven; round_dp_with_strategy honours the strategy",
                      "core::fmt template encoding", "the Typst template (report.typ) is outside the analysis"],
 }
@@ -375,6 +383,8 @@ def run(ctx, rep):
     floats(F, rep)
     direct_display(F, rep)
     formats(F, rep)
+    import pdfrules
+    pdfrules.run(ctx, rep)
 
 
 def controls(pctx, rep):
